@@ -8,6 +8,7 @@ import numpy as np
 
 from .. import gen
 
+KEEP_ALIVE: list = []  # iterators handed out as keys (kept alive so that their id stays unique while registered)
 KINDS_READ = ("-", "1", "S")
 KINDS_WRITE = ("-", "1", "S", "L")
 
@@ -174,6 +175,73 @@ def do_writes(hub, U, all_letters, letters, assign, rng, regime):
                     pass
 
 
+def one_shot(lst, rng):
+    """a generator / iterator over the items (usable once); registered so that the oracle knows what it held"""
+    from ..oracles.index import ITER_KEYS
+
+    lst = list(lst)
+    v = iter(lst) if rng.random() < 0.5 else (q for q in lst)
+    while len(KEEP_ALIVE) >= 40:
+        ITER_KEYS.pop(id(KEEP_ALIVE.pop(0)), None)
+    ITER_KEYS[id(v)] = lst
+    KEEP_ALIVE.append(v)
+    return v
+
+
+def do_iterator_keys(hub, U, letters, rng):
+    """several items of a dimension handed over as a one-shot iterable (every key object is used exactly once)"""
+    fd = hub.fd
+    if not letters:
+        return
+    shape = gen.shape_of(U, letters)
+    for _ in range(4):
+        l = letters[int(rng.integers(0, len(letters)))]
+        its = list(U[l].items)
+        pick = [its[j] for j in rng.permutation(len(its))[: int(rng.integers(1, len(its) + 1))]]
+        t = fd.FlodymArray(dims=gen.dimset(fd, U, letters), values=gen.values_one("dyadic", rng, shape))
+        key = {l: one_shot(pick, rng)}
+        if len(letters) > 1 and rng.random() < 0.5:
+            l2 = [q for q in letters if q != l][0]
+            key[l2] = U[l2].items[0]
+        try:
+            t[key] = float(rng.integers(-20, 20)) / 4
+        except Exception:
+            pass
+        x = fd.FlodymArray(dims=gen.dimset(fd, U, letters), values=gen.values_one("dyadic", rng, shape))
+        try:
+            x[{l: one_shot(pick, rng)}]  # several items on a read: must raise
+        except Exception:
+            pass
+
+
+def do_float32_targets(hub, U, letters, rng):
+    """single-precision targets receive double-precision sources whose sums cancel: the sum must be formed before rounding"""
+    fd = hub.fd
+    if not letters:
+        return
+    extra = [l for l in "abcde" if l not in letters and l in U][:1]
+    if not extra:
+        return
+    shape = gen.shape_of(U, letters)
+    for _ in range(3):
+        t = fd.FlodymArray(dims=gen.dimset(fd, U, letters), values=np.zeros(shape, dtype=np.float32))
+        sl = tuple(letters) + tuple(extra)
+        ss = gen.shape_of(U, sl)
+        src = rng.integers(1, 50, size=ss).astype(float)
+        big = 2.0 ** rng.integers(26, 40)
+        n_e = ss[-1]
+        if n_e >= 2:
+            src[..., 0] += big
+            src[..., 1] -= big  # cancels exactly in double precision, not in single precision
+        order = [sl[j] for j in rng.permutation(len(sl))]
+        s = fd.FlodymArray(dims=gen.dimset(fd, U, sl), values=src)
+        s2 = s.sum_to(tuple(order)) if rng.random() < 0.5 else s
+        try:
+            t[...] = s2
+        except Exception:
+            pass
+
+
 def do_whole_array(hub, U, letters, rng):
     """t[...] = ndarray / set_values(ndarray) of the right shape, transposed, broadcastable, extra axis; number; array."""
     fd = hub.fd
@@ -273,6 +341,15 @@ def do_items_where_split(hub, U, letters, rng):
     for p in preds:
         try:
             x.items_where(p)
+        except Exception:
+            pass
+    # labels longer than any fixed-width string type someone might pick, sharing a long common prefix
+    long_dim = fd.Dimension(letter="L", name="long labels", items=["very long label of a material class " + "x" * 20 + suffix for suffix in ("-A", "-B", "-C")])
+    short_dim = fd.Dimension(letter="n", name="number", items=[1, 2])
+    xl = fd.FlodymArray(dims=fd.DimensionSet(dim_list=[short_dim, long_dim]), values=np.array([[1.0, -2.0, 3.0], [-4.0, 5.0, -6.0]]))
+    for p in (lambda v: v < 0, lambda v: v > 0):
+        try:
+            xl.items_where(p)
         except Exception:
             pass
     for l in letters:
